@@ -57,7 +57,15 @@ func newLanguage(name string) languages.Language {
 
 // ---------------------------------------------------------------- cases
 
-var places = []string{"root", "field", "optfield"}
+// placements of the enumerated term T in package p (support objects S,T,E,A,K):
+//
+//	root      object Root = T
+//	field     object Root = {f: T}
+//	optfield  object Root = {f?: T}
+//	aliased   object Root = {f: T} next to an object Al = ref(p.S), an alias of
+//	          the struct S (Java's RemoveIntersections only acts when such an
+//	          alias object exists; without it that pass of the chain is idle)
+var places = []string{"root", "field", "optfield", "aliased"}
 
 type testCase struct {
 	Place string
@@ -72,6 +80,11 @@ func (c testCase) spec() irgen.SchemaSpec {
 		return irgen.WithRoot(c.Term)
 	case "field":
 		return irgen.WithField(c.Term, true)
+	case "aliased":
+		sp := irgen.WithField(c.Term, true)
+		sp.Name = "aliased:" + c.Term.String()
+		sp.Pkgs[0].Objects = append(sp.Pkgs[0].Objects, irgen.ObjSpec{Name: "Al", T: irgen.Ref(irgen.Pkg + ".S")})
+		return sp
 	default:
 		return irgen.WithField(c.Term, false)
 	}
@@ -83,6 +96,8 @@ func (c testCase) size() int {
 		return c.Term.Size()
 	case "field":
 		return c.Term.Size() + 1
+	case "aliased":
+		return c.Term.Size() + 3
 	}
 	return c.Term.Size() + 2
 }
@@ -92,20 +107,134 @@ func (c testCase) size() int {
 // an attribute), field → the object's own type (hoist over the parent).
 func (c testCase) parents() []string {
 	var out []string
-	for _, r := range c.Term.Reductions() {
+	for _, r := range reductionsOf(c.Term) {
 		out = append(out, testCase{c.Place, r}.witness())
 	}
 	switch c.Place {
-	case "optfield":
+	case "optfield", "aliased": // reset the attribute / delete the unreferenced alias object
 		out = append(out, testCase{"field", c.Term}.witness())
 	case "field":
 		out = append(out, testCase{"root", c.Term}.witness())
+	case "root":
+		// Root = {a: X} is the field placement of X up to the field's name
+		if t := c.Term; t.K == "struct" && len(t.Sub) == 1 && !t.Nullable {
+			if t.Fields[0].Required {
+				out = append(out, testCase{"field", t.Sub[0]}.witness())
+			} else {
+				out = append(out, testCase{"optfield", t.Sub[0]}.witness())
+			}
+		}
+	}
+	return out
+}
+
+// reductionsOf: the shared one-step reductions of grammar I plus "reset one
+// leaf to the base value of its alphabet" for every kind of leaf (DESIGN §5.1:
+// any leaf → `string`), so that one cause is not reported once per leaf kind.
+func reductionsOf(t irgen.Term) []irgen.Term {
+	seen := map[string]bool{t.String(): true}
+	var out []irgen.Term
+	for _, r := range append(t.Reductions(), leafResets(t)...) {
+		if k := r.String(); !seen[k] {
+			seen[k] = true
+			out = append(out, r)
+		}
+	}
+	return out
+}
+
+// candidates: the base values a leaf can be reset to, nearest first: a
+// constant loses its value, a reference points to the base object S, an enum
+// becomes the plain string enum, and every leaf can become `string`.
+func candidates(l irgen.Term) []irgen.Term {
+	if l.A == "null" || (l.K == "scalar" && l.A == "string") {
+		return nil
+	}
+	var out []irgen.Term
+	switch l.K {
+	case "const":
+		out = append(out, irgen.S(map[string]string{"str": "string", "int": "int64", "bool": "bool", "float": "float64"}[l.A]))
+	case "ref":
+		if l.A != irgen.Pkg+".S" {
+			out = append(out, irgen.Ref(irgen.Pkg+".S"))
+			if l.A != irgen.Pkg+".T" {
+				out = append(out, irgen.Ref(irgen.Pkg+".T"))
+			}
+		}
+	case "enum":
+		if l.A != "str" {
+			out = append(out, irgen.Enum("str"))
+		}
+	}
+	if len(out) == 0 || out[0].String() != "string" {
+		out = append(out, irgen.S("string"))
+	}
+	for i := range out {
+		out[i].Nullable = l.Nullable
+	}
+	return out
+}
+
+// leafResets: reset ONE leaf occurrence, or ALL occurrences of one leaf value
+// uniformly (so that `int64|int64` reduces to `string|string`).
+func leafResets(t irgen.Term) []irgen.Term {
+	out := oneLeaf(t)
+	distinct := map[string]irgen.Term{}
+	var order []string
+	var collect func(t irgen.Term)
+	collect = func(t irgen.Term) {
+		if len(t.Sub) == 0 {
+			if _, ok := distinct[t.String()]; !ok {
+				distinct[t.String()] = t
+				order = append(order, t.String())
+			}
+		}
+		for _, s := range t.Sub {
+			collect(s)
+		}
+	}
+	collect(t)
+	for _, k := range order {
+		for _, c := range candidates(distinct[k]) {
+			out = append(out, substitute(t, k, c))
+		}
+	}
+	return out
+}
+
+func substitute(t irgen.Term, leaf string, by irgen.Term) irgen.Term {
+	if len(t.Sub) == 0 {
+		if t.String() == leaf {
+			return by
+		}
+		return t
+	}
+	c := t
+	c.Sub = make([]irgen.Term, len(t.Sub))
+	for i, s := range t.Sub {
+		c.Sub[i] = substitute(s, leaf, by)
+	}
+	return c
+}
+
+func oneLeaf(t irgen.Term) []irgen.Term {
+	if len(t.Sub) == 0 {
+		return candidates(t)
+	}
+	var out []irgen.Term
+	for i, s := range t.Sub {
+		for _, r := range oneLeaf(s) {
+			c := t
+			c.Sub = append([]irgen.Term{}, t.Sub...)
+			c.Sub[i] = r
+			out = append(out, c)
+		}
 	}
 	return out
 }
 
 func enumFlavours() []irgen.Term {
-	return []irgen.Term{irgen.Enum("numname"), irgen.Enum("odd"), irgen.Enum("space")}
+	return []irgen.Term{irgen.Enum("numname"), irgen.Enum("odd"), irgen.Enum("space"), irgen.Enum("plus"), irgen.Enum("noname")}
 }
 
 // terms enumerates the grammar of the tier and closes it under one-step
@@ -143,6 +272,8 @@ func terms(thorough bool) []irgen.Term {
 			all = append(all, w)
 		}
 	}
+	// maps indexed by an anonymous struct / a union
+	all = append(all, irgen.MapIdx(irgen.Struct1("a", true, irgen.S("string")), irgen.S("string")), irgen.MapIdx(irgen.Disj(irgen.S("string"), irgen.S("int64")), irgen.S("string")))
 	// discriminated union of references, three branches and with null
 	d3 := irgen.Disj(irgen.Ref(irgen.Pkg+".S"), irgen.Ref(irgen.Pkg+".T"), irgen.Null())
 	d3.Disc = true
@@ -165,7 +296,7 @@ func terms(thorough bool) []irgen.Term {
 	for len(queue) > 0 {
 		t := queue[0]
 		queue = queue[1:]
-		for _, r := range t.Reductions() {
+		for _, r := range reductionsOf(t) {
 			push(r)
 		}
 	}
@@ -183,7 +314,7 @@ func terms(thorough bool) []irgen.Term {
 var pipeline = &codegen.Pipeline{} // default configuration: no final passes, no builders
 
 var inputObjects = func() map[string]bool {
-	m := map[string]bool{"Root": true}
+	m := map[string]bool{"Root": true, "Al": true}
 	for _, o := range irgen.Support(irgen.Pkg) {
 		m[o.Name] = true
 	}
@@ -356,8 +487,11 @@ func report(r *vx.Run, lang string, c testCase, o outcome, verbose bool) {
 		}
 	}
 	for _, v := range o.Viol {
+		first, later := since(stages, v.kind(lang))
 		kind := v.kind(lang)
-		first, later := since(stages, kind)
+		if !v.isName() {
+			kind += " [since " + first + "]"
+		}
 		var hist string
 		if first == "input" {
 			hist = "the construct is in this position in the input and no pass of the chain removes it"
@@ -480,8 +614,8 @@ func main() {
 	}
 	var samples []any
 	sampleAt := map[int]bool{}
-	for k := 0; k < 8; k++ {
-		sampleAt[k*(len(cases)-1)/7] = true
+	for _, d := range []int{1 << 30, 200, 50, 20, 8, 4, 2, 1} { // spread over the size-ordered list
+		sampleAt[(len(cases)-1)/d] = true
 	}
 	for i, st := range stats {
 		if !done[i] {
@@ -547,7 +681,7 @@ func main() {
 		"per_language_clause_repaired_by_chain":    repaired,
 		"per_language_clause_failing_cases":        failing,
 		"distinct_outcome_classes":                 len(outcomeClasses),
-		"explanation": "every type term of grammar I (depth " + depth + "; plus flat 3-branch unions with null, maps with non-string index types, two-field structs; closed under one-step reductions) is placed as the type of object Root, as a required and as an optional field of struct Root (package p with support objects S,T,E,A,K); for each and each language the real codegen.Pipeline.ContextForLanguage is executed (language.CompilerPasses() through compiler.Passes.Process); chain errors are counted and not judged, panics are recorded as crash:<pass>; on success the resulting schemas are judged by a complete walker (fields, array elements, map index and value, union and intersection branches, enum member types); failing cases are re-run pass by pass to name the pass after which the construct sits where it ends up",
+		"explanation":                              "every type term of grammar I (depth " + depth + "; plus flat 3-branch unions with null, maps with non-string index types, two-field structs; closed under one-step reductions) is placed as the type of object Root, as a required and as an optional field of struct Root, and as a required field next to an alias object Al = ref(p.S) (package p with support objects S,T,E,A,K); for each and each language the real codegen.Pipeline.ContextForLanguage is executed (language.CompilerPasses() through compiler.Passes.Process); chain errors are counted and not judged, panics are recorded as crash:<pass>; on success the resulting schemas are judged by a complete walker (fields, array elements, map index and value, union and intersection branches, enum member types); failing cases are re-run pass by pass to name the pass after which the construct sits where it ends up",
 	}
 	if !exhaustive {
 		cov["completed_bound"] = fmt.Sprintf("%d of %d cases in work order (smallest first) before the internal deadline", completed, len(cases))
